@@ -65,6 +65,8 @@ Lemma chain_u_cons r F L : wf r F -> chain_u r (F :: L) = kron_chain F L.
 Proof. intros H. unfold chain_u, kron_chain. cbn [fold_left]. rewrite kron2_unit_l by auto. reflexivity. Qed.
 Lemma wf_chain_u r L : Forall (wf r) L -> wf r (chain_u r L).
 Proof. intros H. unfold chain_u. apply (wf_kron_chain r L (kunit r)); auto. apply wf_kunit. Qed.
+Lemma chain_u_snoc r L G : chain_u r (L ++ [G]) = kron2 (chain_u r L) G.
+Proof. unfold chain_u. rewrite fold_left_app. reflexivity. Qed.
 Lemma chain_u_app r L1 L2 : Forall (wf r) L1 -> Forall (wf r) L2 ->
   chain_u r (L1 ++ L2) = kron2 (chain_u r L1) (chain_u r L2).
 Proof.
@@ -72,7 +74,72 @@ Proof.
   - rewrite app_nil_r. change (chain_u r []) with (kunit r). rewrite kron2_unit_r; auto. apply wf_chain_u; auto.
   - assert (H2' : Forall (wf r) L2) by (apply Forall_forall; intros x Hx; rewrite Forall_forall in H2; apply H2; apply in_or_app; auto).
     assert (HG : wf r G) by (rewrite Forall_forall in H2; apply H2; apply in_or_app; right; left; auto).
-    rewrite app_assoc. unfold chain_u at 1 3. rewrite !fold_left_app. cbn [fold_left].
-    fold (chain_u r (L1 ++ L2)). fold (chain_u r L2).
-    rewrite IH by auto. apply kron2_assoc; auto; apply wf_chain_u; auto.
+    rewrite app_assoc, !chain_u_snoc.
+    rewrite IH by auto. apply (kron2_assoc r); auto; apply wf_chain_u; auto.
+Qed.
+
+(* ------------------------------------------------------------------ Kronecker insertion = chain with the factor inserted *)
+Lemma map2_mul_rot P : forall e S, length P = length e -> length e = length S ->
+  map2 Nat.mul e (map2 Nat.mul P S) = map2 Nat.mul (map2 Nat.mul P e) S.
+Proof.
+  induction P as [|p P IH]; intros [|x e] [|s S] H1 H2; simpl in *; try discriminate; auto.
+  rewrite IH by lia. f_equal. lia.
+Qed.
+
+Lemma ins_index_lists P : forall e Sd idx, length P = length e -> length e = length Sd ->
+  inb idx (map2 Nat.mul (map2 Nat.mul P e) Sd) ->
+  let xs := map2 Nat.div idx (map2 Nat.mul e Sd) in
+  let zs := map2 Nat.modulo idx Sd in
+  let cidx := map2 Nat.add (map2 Nat.mul xs Sd) zs in
+  inb cidx (map2 Nat.mul P Sd) /\
+  map2 Nat.div cidx Sd = xs /\ map2 Nat.modulo cidx Sd = zs /\
+  xs = map2 Nat.div (map2 Nat.div idx Sd) e.
+Proof.
+  induction P as [|p P IH]; intros [|x e] [|s Sd] idx H1 H2 Hin; simpl in *; try discriminate.
+  - inversion Hin. simpl. repeat split; constructor.
+  - inversion Hin as [|i ? idx' ? Hi Hin']; subst.
+    destruct (IH e Sd idx' ltac:(lia) ltac:(lia) Hin') as [I1 [I2 [I3 I4]]].
+    cbn zeta in *. simpl.
+    assert (Hs : s <> 0) by (intros ->; lia).
+    assert (Hx : x <> 0) by (intros ->; lia).
+    assert (Hxs : x * s <> 0) by (apply Nat.neq_mul_0; auto).
+    assert (Hq : i / (x * s) < p).
+    { apply Nat.div_lt_upper_bound; auto. lia. }
+    pose proof (Nat.mod_upper_bound i s Hs) as Hz.
+    rewrite I2, I3, <- I4.
+    repeat split.
+    + constructor; auto.
+      assert (S (i / (x * s)) * s <= p * s) by (apply Nat.mul_le_mono_r; lia).
+      rewrite Nat.mul_succ_l in H. lia.
+    + f_equal. rewrite Nat.div_add_l by auto. rewrite (Nat.div_small _ _ Hz). lia.
+    + f_equal. rewrite Nat.add_comm, Nat.mod_add by auto. apply Nat.mod_small. auto.
+    + f_equal. rewrite Nat.div_div by auto. f_equal. lia.
+Qed.
+
+Theorem kron_ins_chain r X Y ins : wf r X -> wf r Y -> wf r ins ->
+  kron_ins (shp X) (shp Y) (kron2 X Y) ins = kron2 (kron2 X ins) Y.
+Proof.
+  intros [HX1 HX2] [HY1 HY2] [HI1 HI2].
+  unfold kron_ins. unfold kron2 at 3. cbn [shp kron2 tabulate].
+  rewrite map2_mul_rot by lia.
+  apply tabulate_ext. intros idx Hidx.
+  destruct (ins_index_lists (shp X) (shp ins) (shp Y) idx ltac:(lia) ltac:(lia) Hidx) as [I1 [I2 [I3 I4]]].
+  cbn zeta in *.
+  destruct (inb_divmod (map2 Nat.mul (shp X) (shp ins)) (shp Y) idx) as [J1 J2]; auto.
+  { rewrite map2_length; lia. }
+  unfold kron2. rewrite !aget_tabulate by auto. cbn [shp].
+  rewrite I2, I3, I4. ring.
+Qed.
+
+(* inserting into a chain: only the products of the dimensions in front of / behind the insertion point
+   are used, and the result is the chain of the factor list with the new factor inserted *)
+Theorem kron_ins_chain_u r L1 L2 ins : Forall (wf r) L1 -> Forall (wf r) L2 -> wf r ins ->
+  kron_ins (shp (chain_u r L1)) (shp (chain_u r L2)) (chain_u r (L1 ++ L2)) ins = chain_u r (L1 ++ ins :: L2).
+Proof.
+  intros H1 H2 Hi. rewrite chain_u_app by auto.
+  rewrite (kron_ins_chain r) by (auto using wf_chain_u).
+  change (ins :: L2) with ([ins] ++ L2). rewrite app_assoc.
+  rewrite (chain_u_app r (L1 ++ [ins]) L2); auto.
+  - rewrite chain_u_snoc. reflexivity.
+  - apply Forall_app. split; auto.
 Qed.
